@@ -390,12 +390,25 @@ func c07conns(r *Run) {
 	if class == "heavy" {
 		replays = c.Pick(4, "replays")
 	}
+	// an outage: the path loses everything for 8-40 simulated seconds (long enough for the client's five
+	// growing timeouts to run out and a Write to fail), then recovers
+	outages := 0
+	if class == "heavy" && c.Chance(1, 2, "outage") {
+		outages = 1 + c.Pick(2, "outages")
+	}
+	var outageUntil time.Time
 	pol.DgramHook = func(seq int) bool {
 		if d := r.Net.PeekDgram(seq); d != nil && d.To.String() == addr {
 			if len(old) < 64 {
 				old = append(old, d.Data)
 				oldFrom, oldTo = d.From, d.To
 			}
+		}
+		if time.Now().Before(outageUntil) {
+			r.Net.DropDgram(seq)
+			r.Count("fault_dgram_loss")
+			r.Count("fault_outage_drop")
+			return true
 		}
 		return false
 	}
@@ -407,6 +420,16 @@ func c07conns(r *Run) {
 		}
 		if e, ok := ps.NextEv(); ok {
 			evs = append(evs, e)
+		}
+		if outages > 0 && !time.Now().Before(outageUntil) {
+			evs = append(evs, Ev{Kind: "fault:outage", Desc: "path outage", key: "o", Do: func() {
+				outages--
+				d := time.Duration(8+c.Pick(33, "outage-s")) * time.Second
+				outageUntil = time.Now().Add(d)
+				r.Count("fault_outage")
+				r.Logf("path outage for %v", d)
+				r.AddShape("outage")
+			}})
 		}
 		if replays > 0 && len(old) > 0 {
 			evs = append(evs, Ev{Kind: "fault:replay", Desc: "replay an old query", key: "r", Do: func() {
